@@ -706,7 +706,7 @@ type replay struct {
 	What  string   `json:"what"`
 }
 
-// minimise removes moves one at a time as long as the same key is still reported (5 out of 5 runs).
+// minimise removes moves one at a time as long as the same key is still reported (3 out of 3 runs each).
 func minimise(cfg config, sl *slot, key string, moves []string) ([]string, string) {
 	what := ""
 	same := func(ms []string) bool {
